@@ -45,7 +45,7 @@ var (
 	corpus  = flag.String("corpus", "", "corpus file: <tree tokens>;<data tokens> per line, hex encoded")
 	known   = flag.String("known", "", "known_findings.json")
 	workers = flag.Int("workers", 16, "parallel workers")
-	dev     = flag.String("dev", "-", "deviations the tree under test is expected to have; the current tree has none (-). For older trees: u uncomparable panic (before 0a3fd2c), q float != x (before 21415f8), v int compared as float64 (before 24fcf54), i == on two struct/array values holding a slice or map in an interface-typed field panics (the CURRENT tree, until notes/proposed_fixes/C12_iface_field_panic.md is applied), b a filter that is a bare path is not an existence test (before 6b93c2a; trees before fe63c88 are no longer supported), r parser takes the second argument of match/search apart (before cd355fe)")
+	dev     = flag.String("dev", "-", "deviations the tree under test is expected to have; the current tree has none (-). For older trees: u uncomparable panic (before 0a3fd2c), q float != x (before 21415f8), v int compared as float64 (before 24fcf54), i == on two struct/array values holding a slice or map in an interface-typed field panics (before 6d0c31a), b a filter that is a bare path is not an existence test (before 6b93c2a; trees before fe63c88 are no longer supported), r parser takes the second argument of match/search apart (before cd355fe)")
 )
 
 var rep *lib.Report
